@@ -589,9 +589,7 @@ func classify(m *jv, sub string, isImports bool) []string {
 				}
 				_ = i
 			}
-			if dot && nodot && isTop && isImports {
-				tags["imports-top-mixed-keys"] = true // what is left of D4 after the fix 4e82ea6
-			}
+			_, _, _ = dot, nodot, isTop // mixed keys are no refuted shape any more (fixes 4e82ea6, 9a0cc2e)
 			for _, v := range j.vals {
 				visit(v)
 			}
@@ -1977,7 +1975,7 @@ var witnesses = []witness{
 	{"imports-target-is-url", "url-target", nil, "#fs", nil, jobj("#fs", "node:fs"), nil, nil, "", ""},
 	{"star-in-specifier", "star-in-specifier", jobj("./index/*/b", "./index/index.mjs"), "pkg/index/*/b", []string{"index/index.mjs"}, nil, nil, nil, "", ""},
 	{"case-colliding-directory-entries", "case-colliding-entries", jobj("./x", "./index/A"), "pkg/x", []string{"index/A", "index/a/b.js"}, nil, nil, nil, "", ""},
-	{scenario: "invalid-package-name-taken-as-self-reference", what: "nameless-self-reference", spec: "@foo", kinds: []string{"require"},
+	{scenario: "invalid-package-name-taken-as-self-reference", what: "nameless-self-reference", spec: "@foo", kinds: []string{"require"}, fixed: "d8f247a",
 		raw: map[string]string{
 			"package.json":               `{"exports":{".":"./own.js"}}`,
 			"own.js":                     "module.exports='own'\n",
@@ -1998,7 +1996,7 @@ var witnesses = []witness{
 			"node_modules/rootpkg/package.json": `{"name":"rootpkg","exports":{".":"./copy.js"}}`,
 			"node_modules/rootpkg/copy.js":      "module.exports='copy'\n",
 			"node_modules/nopkg/index.js":       "module.exports=1\n"}},
-	{scenario: "imports-top-level-mixed-keys", what: "imports-top-mixed-keys", spec: "#a", imports: jobj("#a", "./a.js", "./b", "./b.js"), files: []string{"a.js", "b.js"}},
+	{scenario: "imports-top-level-mixed-keys", what: "imports-top-mixed-keys", fixed: "9a0cc2e", spec: "#a", imports: jobj("#a", "./a.js", "./b", "./b.js"), files: []string{"a.js", "b.js"}},
 	{"percent-encoded-subpath-no-exports", "percent-encoded-relative-specifier", nil, "pkgn/lib/%61.js", []string{"node_modules/pkgn/lib/a.js", "node_modules/pkgn/package.json"}, nil, []string{"import"}, nil, "", ""},
 	{"percent-encoded-relative-import", "percent-encoded-relative-specifier", nil, "./%75til.js", []string{"util.js"}, nil, []string{"import"}, nil, "", ""},
 }
